@@ -20,6 +20,7 @@ EXPLANATION = (
     "through nalgebra's checked indexing and `ix - 1` on usize (no clamping/unchecked access is searched for). Not decided: result kind conventions, as_index conversion."
     ' (R6) the per-variant arms of Value::as_vecusize/as_usize keep their frozen sibling partition.'
     ' (R2, extended) bulk slice writes of the output (`clone_from_slice`, `copy_from_slice`, `fill` ...) are modelled and reported next to the element-wise gather, as is a gather that only runs under a condition on the index values.'
+    ' (R7) index operands keep their position: in each arm of subscript() the j-th index value handed to the access compiler is evaluated from the j-th subscript (or is IndexAll exactly where that subscript is `:`).'
 )
 
 FORMS = {"Scalar": "S", "Range": "R", "All": "A"}
@@ -490,3 +491,5 @@ def run(F, rep, tier):
     rep.analysed = {"routing_arms": len(rt), "native_compilers": sorted(nfc_forms), "kernels": n_k, "dispatch_arms_with_output": n_arms}
     from rules.k2_targets import run_k2
     run_k2(F, rep, "C03", "C03-R6")
+    from rules.loopshape import subscript_operand_positions
+    subscript_operand_positions(F, rep, "C03-R7", r"^subscript$", 12)
